@@ -32,6 +32,7 @@ Definition ckind_eqb (a b:ckind) : bool :=
   | KUnique, KUnique => true
   | KCheck x, KCheck y => N.eqb x y
   | KFk t c, KFk t' c' => name_eqb t t' && names_eqb c c'
+  | KPrimary, KPrimary => true
   | _, _ => false
   end.
 Definition con_eqb (a b:con) : bool := name_eqb (k_name a) (k_name b) && ckind_eqb (k_kind a) (k_kind b) && names_eqb (k_cols a) (k_cols b).
@@ -45,14 +46,31 @@ Definition desc_eqb (a b:ndesc) : bool :=
 Definition set_equiv {A} (a b:list A) : Prop := forall x, In x a <-> In x b.
 Definition desc_equiv (a b:ndesc) : Prop :=
   n_cols a = n_cols b /\ n_pk a = n_pk b /\ set_equiv (n_cons a) (n_cons b) /\ set_equiv (n_idx a) (n_idx b).
-(* the same, except that the POSITION of the columns named in `added` is left open (the property text fixes the order of
-   the columns that were there, not where a new column goes) *)
+(* the same up to the mutual order of the columns ADDED by the batch that sit in the same gap: the pre-existing columns are in
+   the same order, and every added column (name in `added`) follows the same pre-existing column in both descriptions
+   (insert_before / insert_after promise a place relative to the named column; two columns requested for the same gap have
+   no documented mutual order) *)
 Definition not_in (added:list name) (c:col) : bool := negb (mem_name (c_name c) added).
+Fixpoint anchor_from (added:list name) (prev:option name) (l:list col) (n:name) : option (option name) :=
+  match l with
+  | [] => None
+  | c :: r => if name_eqb (c_name c) n then Some prev
+              else anchor_from added (if mem_name (c_name c) added then prev else Some (c_name c)) r n
+  end.
+Definition anchor (added:list name) (l:list col) (n:name) : option (option name) := anchor_from added None l n.
+Definition ooname_eqb (a b:option (option name)) : bool :=
+  match a, b with Some x, Some y => oname_eqb x y | None, None => true | _, _ => false end.
+Definition same_gaps_b (added:list name) (a b:list col) : bool :=
+  forallb (fun c => if mem_name (c_name c) added then ooname_eqb (anchor added a (c_name c)) (anchor added b (c_name c)) else true) a.
+Definition same_gaps (added:list name) (a b:list col) : Prop :=
+  forall c, In c a -> mem_name (c_name c) added = true -> anchor added a (c_name c) = anchor added b (c_name c).
 Definition desc_eqb_w (added:list name) (a b:ndesc) : bool :=
   seteqb col_eqb (n_cols a) (n_cols b) && list_eqb col_eqb (filter (not_in added) (n_cols a)) (filter (not_in added) (n_cols b))
+  && same_gaps_b added (n_cols a) (n_cols b)
   && names_eqb (n_pk a) (n_pk b) && seteqb con_eqb (n_cons a) (n_cons b) && seteqb index_eqb (n_idx a) (n_idx b).
 Definition desc_equiv_w (added:list name) (a b:ndesc) : Prop :=
   set_equiv (n_cols a) (n_cols b) /\ filter (not_in added) (n_cols a) = filter (not_in added) (n_cols b) /\
+  same_gaps added (n_cols a) (n_cols b) /\
   n_pk a = n_pk b /\ set_equiv (n_cons a) (n_cons b) /\ set_equiv (n_idx a) (n_idx b).
 
 Definition berr_eqb (a b:berr) : bool :=
@@ -109,8 +127,8 @@ Definition edit (o:batch_op) (T:tbl) : bres tbl :=
   | ODropColumn k =>
       if negb (has_key k T) then BErr EKeyError
       else if existsb (fun x => mem_name k (x_cols x)) (tb_idx T) then BErr EOperationalB     (* an index still needs it *)
-      else if existsb (fun c => mem_name k (k_cols c)) (tb_cons T) then BErr EOperationalB    (* a constraint still needs it *)
-      else BOk (mkTbl (adel k (tb_cols T)) (remove_name k (tb_pk T)) (tb_cons T) (tb_idx T))
+      else if existsb (fun c => negb (is_primary c) && mem_name k (k_cols c)) (tb_cons T) then BErr EOperationalB    (* a constraint still needs it *)
+      else BOk (mkTbl (adel k (tb_cols T)) (remove_name k (tb_pk T)) (map (pk_drop_col k) (tb_cons T)) (tb_idx T))   (* it leaves the primary key *)
   | OAlterColumn k a =>
       match aget k (tb_cols T) with
       | None => BErr EKeyError
@@ -144,7 +162,7 @@ Fixpoint edit_all (ops:list batch_op) (T:tbl) : bres tbl :=
 Definition describe (T:tbl) : ndesc :=
   let rn := cur_name (tb_cols T) in
   mkDesc (map snd (tb_cols T)) (map rn (tb_pk T))
-         (map (fun c => mkCon (k_name c) (k_kind c) (map rn (k_cols c))) (tb_cons T))
+         (map (fun c => mkCon (k_name c) (k_kind c) (map rn (k_cols c))) (filter con_visible (tb_cons T)))
          (map (fun x => mkIndex (x_name x) (map rn (x_cols x)) (x_unique x)) (tb_idx T)).
 
 (* ------------------------------------------------------------------ what the operations mention; where a column ends up *)
@@ -190,6 +208,25 @@ Fixpoint requested_ok_from (all ops:list batch_op) (nd:ndesc) : bool :=
   | _ :: r => requested_ok_from all r nd
   end.
 
+(* an inserted column is on the requested side of the column it names (also when that column was itself added by the batch) *)
+Fixpoint col_pos (n:name) (l:list col) : option nat :=
+  match l with [] => None | c :: r => if name_eqb (c_name c) n then Some 0%nat else option_map S (col_pos n r) end.
+Definition before_b (l:list col) (x y:option name) : bool :=
+  match x, y with
+  | Some x, Some y => match col_pos x l, col_pos y l with Some i, Some j => Nat.ltb i j | _, _ => true end
+  | _, _ => true
+  end.
+Fixpoint side_ok_from (all ops:list batch_op) (nd:ndesc) : bool :=
+  match ops with
+  | [] => true
+  | OAddColumn k c b a :: r =>
+      let z := final_name r k (c_name c) in
+      (match b with Some bk => before_b (n_cols nd) z (final_name all bk bk) | None => true end)
+      && (match a with Some ak => before_b (n_cols nd) (final_name all ak ak) z | None => true end)
+      && side_ok_from all r nd
+  | _ :: r => side_ok_from all r nd
+  end.
+
 Section Holds.
   Variable i : input10.
   Let T := j_tbl i.
@@ -226,6 +263,7 @@ Section Holds.
         tmp_left = false /\
         length rows = length (j_rows i) /\ survivors_present nd = true /\ mseq rows (expected_rows nd) /\
         untouched_ok nd = true /\ requested_ok_from ops ops nd = true /\
+        side_ok_from ops ops nd = true /\
         (forall T', edit_all ops T = BOk T' -> desc_equiv_w (added_names ops) nd (describe T'))
     end.
 
@@ -235,6 +273,7 @@ Section Holds.
     | OutOk nd rows tmp_left =>
         negb tmp_left && Nat.eqb (length rows) (length (j_rows i)) && survivors_present nd && mseqb rows (expected_rows nd)
         && untouched_ok nd && requested_ok_from ops ops nd
+        && side_ok_from ops ops nd
         && match edit_all ops T with BOk T' => desc_eqb_w (added_names ops) nd (describe T') | BErr _ => true end
     end.
 End Holds.
@@ -247,5 +286,6 @@ Definition in_class (o:batch_op) : bool :=
   | _ => true
   end.
 Definition wf_tbl (T:tbl) : bool :=
-  forallb (fun c => sub_names (k_cols c) (akeys (tb_cols T))) (tb_cons T) && sub_names (tb_pk T) (akeys (tb_cols T)).
+  forallb (fun c => sub_names (k_cols c) (akeys (tb_cols T))) (tb_cons T) && sub_names (tb_pk T) (akeys (tb_cols T))
+  && negb (has_dup (map k_name (tb_cons T))).
 Definition specok (i:input10) : bool := match edit_all (j_ops i) (j_tbl i) with BOk _ => true | BErr _ => false end.
